@@ -131,6 +131,32 @@ pub struct OptSub {
     rest: Vec<String>,
 }
 
+#[derive(Args, Clone, Debug, PartialEq)]
+pub struct Creds {
+    // every argument of an optional flattened group has to be optional itself: clap keeps a required
+    // argument required even when the whole group is absent
+    #[arg(long)]
+    user: Option<String>,
+    #[arg(long)]
+    pass: Option<String>,
+}
+
+#[derive(Parser, Clone, Debug, PartialEq)]
+#[command(name = "misc", rename_all = "SCREAMING_SNAKE_CASE")]
+pub struct Misc {
+    #[arg(long)]
+    first_name: Option<String>,
+    #[arg(short = 'x', long = "explicit-name", id = "custom_id")]
+    renamed: Option<u32>,
+    #[arg(long, num_args = 0..=1, default_missing_value = "auto", require_equals = true)]
+    color: Option<String>,
+    #[command(flatten)]
+    creds: Option<Creds>,
+    input: String,
+    #[arg(last = true)]
+    tail: Vec<String>,
+}
+
 // ------------------------------------------------------------------------------------------
 // scenario data
 
@@ -595,6 +621,108 @@ fn optsub_tokens(v: &OptSub, which: &dyn Fn(&str) -> bool) -> (Vec<String>, Vec<
     (a, named)
 }
 
+impl Mirror for Misc {
+    fn fields(&self) -> Vec<(String, String)> {
+        let mut v = vec![
+            ("first_name".into(), format!("{:?}", self.first_name)),
+            ("renamed".into(), format!("{:?}", self.renamed)),
+            ("color".into(), format!("{:?}", self.color)),
+            ("input".into(), format!("{:?}", self.input)),
+            ("tail".into(), format!("{:?}", self.tail)),
+        ];
+        match &self.creds {
+            None => v.push(("creds.variant".into(), "none".into())),
+            Some(c) => {
+                v.push(("creds.variant".into(), "some".into()));
+                v.push(("creds.user".into(), format!("{:?}", c.user)));
+                v.push(("creds.pass".into(), format!("{:?}", c.pass)));
+            }
+        }
+        v
+    }
+    fn defaulted_paths() -> &'static [&'static str] {
+        &[]
+    }
+    fn from_matches(m: &ArgMatches) -> Result<Self, String> {
+        let creds = if present(m, "Creds") { Some(Creds { user: one::<String>(m, "user")?, pass: one::<String>(m, "pass")? }) } else { None };
+        Ok(Misc {
+            first_name: one::<String>(m, "first_name")?,
+            renamed: one::<u32>(m, "custom_id")?,
+            color: one::<String>(m, "color")?,
+            creds,
+            input: one::<String>(m, "input")?.ok_or("input missing")?,
+            tail: many::<String>(m, "tail")?.unwrap_or_default(),
+        })
+    }
+}
+
+fn gen_misc(rng: &mut Rng) -> Misc {
+    Misc {
+        first_name: if rng.coin() { Some(pick_str(rng)) } else { None },
+        renamed: if rng.coin() { Some(*rng.pick(&[0u32, 1, 42, u32::MAX])) } else { None },
+        color: match rng.below(3) {
+            0 => None,
+            1 => Some("auto".into()),
+            _ => Some((*rng.pick(&["always", "never"])).to_string()),
+        },
+        creds: if rng.coin() { Some(Creds { user: Some(pick_str(rng)), pass: if rng.coin() { Some(pick_str(rng)) } else { None } }) } else { None },
+        input: (*rng.pick(&["in.txt", "file", "a b"])).to_string(),
+        tail: (0..rng.usize(3)).map(|_| (*rng.pick(&["t1", "--looks-like-flag", "-x", "t2"])).to_string()).collect(),
+    }
+}
+
+fn misc_tokens(v: &Misc, which: &dyn Fn(&str) -> bool) -> (Vec<String>, Vec<(String, String)>) {
+    let mut a = Vec::new();
+    let mut named = Vec::new();
+    if which("input") {
+        a.push(v.input.clone());
+        named.push(("input".to_string(), format!("{:?}", v.input)));
+    }
+    if which("first_name") {
+        if let Some(x) = &v.first_name {
+            a.push(format!("--FIRST_NAME={x}"));
+            named.push(("first_name".to_string(), format!("{:?}", v.first_name)));
+        }
+    }
+    if which("renamed") {
+        if let Some(x) = v.renamed {
+            if x % 2 == 0 {
+                a.push(format!("-x{x}"));
+            } else {
+                a.push(format!("--explicit-name={x}"));
+            }
+            named.push(("renamed".to_string(), format!("{:?}", v.renamed)));
+        }
+    }
+    if which("color") {
+        if let Some(c) = &v.color {
+            if c == "auto" {
+                a.push("--COLOR".into());
+            } else {
+                a.push(format!("--COLOR={c}"));
+            }
+            named.push(("color".to_string(), format!("{:?}", v.color)));
+        }
+    }
+    if which("creds") {
+        if let Some(c) = &v.creds {
+            a.push(format!("--user={}", c.user.clone().unwrap_or_default()));
+            named.push(("creds.variant".to_string(), "some".into()));
+            named.push(("creds.user".to_string(), format!("{:?}", c.user)));
+            if let Some(p) = &c.pass {
+                a.push(format!("--pass={p}"));
+                named.push(("creds.pass".to_string(), format!("{:?}", c.pass)));
+            }
+        }
+    }
+    if which("tail") && !v.tail.is_empty() {
+        a.push("--".into());
+        a.extend(v.tail.iter().cloned());
+        named.push(("tail".to_string(), format!("{:?}", v.tail)));
+    }
+    (a, named)
+}
+
 // ------------------------------------------------------------------------------------------
 
 fn with0(name: &str, mut v: Vec<String>) -> Vec<String> {
@@ -636,6 +764,22 @@ fn gen_ops<T: Mirror>(rng: &mut Rng, ty: u8) -> (Vec<String>, Vec<DOp>) {
                 Box::new(|rng: &mut Rng| {
                     let v = gen_tree_val(rng);
                     (tree_tokens(&v, true, true).0, format!("{v:?}"))
+                }),
+            )
+        }
+        3 => {
+            let v = gen_misc(rng);
+            (
+                misc_tokens(&v, &all).0,
+                Box::new(|rng: &mut Rng| {
+                    let v = gen_misc(rng);
+                    let mask = rng.next_u64();
+                    let names = ["input", "first_name", "renamed", "color", "creds", "tail"];
+                    misc_tokens(&v, &move |n: &str| names.iter().position(|x| *x == n).map(|i| mask >> i & 1 == 1).unwrap_or(false))
+                }),
+                Box::new(|rng: &mut Rng| {
+                    let v = gen_misc(rng);
+                    (misc_tokens(&v, &|_| true).0, format!("{v:?}"))
                 }),
             )
         }
@@ -706,11 +850,11 @@ impl Engine for DeriveSim {
         Meta {
             engine: "derivesim",
             level: "exploration",
-            rule: "a scenario is one of three derived corpus types (Flat: bool, counter, T, Option<T>, Option<Option<T>>, Vec<T>, Option<Vec<T>>, default_value_t, value_delimiter, ValueEnum with rename/aliases/skip, positional, skip; Tree: global, flatten, required subcommand enum with struct/tuple/unit/nested/external variants, alias; OptSub: multi-value Vec<T> (num_args 1..), Option<Vec<T>> with num_args 0.. (Some(empty)), optional subcommand, trailing positional Vec; Vec<Vec<T>> needs the unstable-v5 feature and is not part of the default surface) plus an initial value and a history of 1-8 operations on ONE value: try_update_from naming a seed-chosen subset of fields (incl. subcommand switches and nested fields), failing updates (parse-phase and extraction-phase faults), parse-equivalence checks, round-trips of generated values, value-enum probes. Non-trivial = >= 2 operations with >= 1 comparison; distinct = distinct scenario hash",
+            rule: "a scenario is one of four derived corpus types (Misc: rename_all, explicit id/short/long, default_missing_value, Option<flatten>, required positional, `last` positional Vec; Flat: bool, counter, T, Option<T>, Option<Option<T>>, Vec<T>, Option<Vec<T>>, default_value_t, value_delimiter, ValueEnum with rename/aliases/skip, positional, skip; Tree: global, flatten, required subcommand enum with struct/tuple/unit/nested/external variants, alias; OptSub: multi-value Vec<T> (num_args 1..), Option<Vec<T>> with num_args 0.. (Some(empty)), optional subcommand, trailing positional Vec; Vec<Vec<T>> needs the unstable-v5 feature and is not part of the default surface) plus an initial value and a history of 1-8 operations on ONE value: try_update_from naming a seed-chosen subset of fields (incl. subcommand switches and nested fields), failing updates (parse-phase and extraction-phase faults), parse-equivalence checks, round-trips of generated values, value-enum probes. Non-trivial = >= 2 operations with >= 1 comparison; distinct = distinct scenario hash",
             real_components: &["clap_derive (Parser, Args, Subcommand, ValueEnum) compiled from /repo", "clap_builder::derive (try_parse_from, try_update_from)", "the builder parser behind them"],
             stub_components: &["hand-written mirrors: value generators, canonical printers, field extraction against the builder API"],
             workload_only_clauses: &["parse-equivalence, field extraction per type shape and round-trip have no history in them; they are evaluated inside the update histories because the update oracle needs them"],
-            assumptions: &["the corpus is fixed (three types spanning the type-shape x attribute matrix); other derive inputs are not covered", "no assertion is made on the value left behind by a FAILED update (the statement is silent)", "if /repo's derive no longer compiles the corpus the check exits 2 (cannot decide)"],
+            assumptions: &["the corpus is fixed (four types spanning the type-shape x attribute matrix); other derive inputs are not covered", "no assertion is made on the value left behind by a FAILED update (the statement is silent)", "if /repo's derive no longer compiles the corpus the check exits 2 (cannot decide)"],
             abort_is_violation: false,
         }
     }
@@ -724,19 +868,21 @@ impl Engine for DeriveSim {
         512
     }
     fn gen(&self, rng: &mut Rng, _tier: Tier) -> DeriveSc {
-        let ty = rng.below(3) as u8;
+        let ty = rng.below(4) as u8;
         let (init_argv, ops) = match ty {
             0 => gen_ops::<Flat>(rng, 0),
             1 => gen_ops::<Tree>(rng, 1),
+            3 => gen_ops::<Misc>(rng, 3),
             _ => gen_ops::<OptSub>(rng, 2),
         };
         DeriveSc { ty, init_argv, ops }
     }
     fn exec(&self, sc: &DeriveSc, log: &mut Log) -> Outcome {
         let mut out = Outcome::default();
-        let r = catch(|| match sc.ty % 3 {
+        let r = catch(|| match sc.ty % 4 {
             0 => exec_ty::<Flat>("flat", sc, log, &mut out),
             1 => exec_ty::<Tree>("tree", sc, log, &mut out),
+            3 => exec_ty::<Misc>("misc", sc, log, &mut out),
             _ => exec_ty::<OptSub>("optsub", sc, log, &mut out),
         });
         if let Err(p) = r {
@@ -827,7 +973,15 @@ fn exec_ty<T: Mirror>(name: &str, sc: &DeriveSc, log: &mut Log, out: &mut Outcom
                             }
                             let Some((_, a)) = after.iter().find(|(q, _)| q == p) else { continue };
                             if a != b {
-                                let site = if T::defaulted_paths().contains(&p.as_str()) { "field-with-default" } else { "field-without-default" };
+                                let site = if T::defaulted_paths().contains(&p.as_str()) {
+                                    "field-with-default"
+                                } else if p == "creds.variant" && b == "none" && a == "some" {
+                                    // listed finding: the updater of an `Option<flatten>` field that is None builds
+                                    // Some(from_arg_matches) without looking whether any argument of the group was given
+                                    "optional-flatten-none-becomes-some"
+                                } else {
+                                    "field-without-default"
+                                };
                                 out.violate("untouched-field-changed", site, format!("op {i}: update {:?} names {:?} but field {p} changed from {b} to {a}", argv, named.iter().map(|x| &x.0).collect::<Vec<_>>()));
                                 if site == "field-without-default" {
                                     return;
